@@ -113,6 +113,7 @@ class Interp:
         it = Interp(self.st, kw.get('glob', self.glob), self.reg, self.fn, kw.get('pure', self.pure),
                     kw.get('env', self.env), kw.get('old', self.old), kw.get('specials', self.specials))
         it.heap_override = kw.get('heap', self.heap_override)
+        it.scope = getattr(self, 'scope', '')
         return it
 
     def to_val(self, x):
@@ -1453,7 +1454,7 @@ class Interp:
         """definitional axioms of a counting function: cnt(0) = 0, cnt(k+1) = cnt(k) + [pred(k)]"""
         name = node.args[0].value
         lam = node.args[1]
-        cnt = V.uf('cnt_' + name, V.I, V.I)
+        cnt = V.uf('cnt_' + name + self.uf_scope(), V.I, V.I)
         k = z3.Int(self.st.fresh_name('cd_k'))
         env = dict(self.env)
         env[lam.args.args[0].arg] = Val.i(k)
@@ -1465,8 +1466,84 @@ class Interp:
 
     def spec_count_at(self, node):
         name = node.args[0].value
-        cnt = V.uf('cnt_' + name, V.I, V.I)
+        cnt = V.uf('cnt_' + name + self.uf_scope(), V.I, V.I)
         return Val.i(cnt(num_int(self.to_val(self.ev(node.args[1])))))
+
+    def spec_sum_def(self, node):
+        """definitional axioms of a real-valued prefix sum: S(0) = 0, S(k+1) = S(k) + term(k)"""
+        name = node.args[0].value
+        lam = node.args[1]
+        S = V.uf('sum_' + name + self.uf_scope(), V.I, V.R)
+        k = z3.Int(self.st.fresh_name('sd_k'))
+        env = dict(self.env)
+        env[lam.args.args[0].arg] = Val.i(k)
+        sub = self.sub(env=env, pure=True)
+        term = num_real(sub.to_val(sub.ev(lam.body)))
+        return Val.b(z3.And(S(0) == 0, z3.ForAll([k], z3.Implies(k >= 0, S(k + 1) == S(k) + term), patterns=[S(k + 1)])))
+
+    def spec_sum_at(self, node):
+        name = node.args[0].value
+        S = V.uf('sum_' + name + self.uf_scope(), V.I, V.R)
+        return Val.f(S(num_int(self.to_val(self.ev(node.args[1])))))
+
+    def spec_ufun_int(self, node):
+        name = node.args[0].value
+        vs = [self.to_val(self.ev(a)) for a in node.args[1:]]
+        return Val.i(V.uf('ui_' + name, *([Val] * len(vs) + [V.I]))(*vs))
+
+    def spec_ufun_real(self, node):
+        name = node.args[0].value
+        vs = [self.to_val(self.ev(a)) for a in node.args[1:]]
+        return Val.f(V.uf('ur_' + name, *([Val] * len(vs) + [V.R]))(*vs))
+
+    def spec_round2(self, node):
+        v = self.to_val(self.ev(node.args[0]))
+        return Val.f(ROUND2(num_real(v), z3.IntVal(2)))
+
+    def spec_eqv(self, node):
+        """structural equality of two values (no int/float/bool coercion, no __eq__)"""
+        a = self.to_val(self.ev(node.args[0]))
+        b = self.to_val(self.ev(node.args[1]))
+        return Val.b(a == b)
+
+    def spec_bv(self, node):
+        """the Boolean carried by a value known to be a bool"""
+        return Val.b(Val.bv(self.to_val(self.ev(node.args[0]))))
+
+    def uf_scope(self):
+        """definitional function symbols are private to one contract application"""
+        return self.specials.get('__scope__', '') or getattr(self, 'scope', '')
+
+    def spec_ufun_on_seq(self, node):
+        name = node.args[0].value
+        sq = self.ev(node.args[1])
+        if not isinstance(sq, SeqV):
+            raise Unsupported('ufun_on_seq needs a sequence')
+        return V.uf('uq_' + name, SeqVal, Val)(sq.seq)
+
+    def spec_seq_sum(self, node):
+        """seq_sum(fn, seq, k): sum of real(fn(seq[j])) for j < k, as a global function of the
+        sequence (fn must be a heap-independent unary spec function); definitional axioms are
+        added once per path."""
+        fn = self.ev(node.args[0])
+        if not isinstance(fn, PyConst) or not isinstance(fn.obj, SpecFn):
+            raise Unsupported('seq_sum needs a spec function')
+        sf = fn.obj
+        F = V.uf('seqsum_' + sf.name, SeqVal, V.I, V.R)
+        key = 'seqsum_' + sf.name
+        if key not in self.st.ghost:
+            self.st.ghost[key] = True
+            sq = z3.Const('ss_s', SeqVal)
+            k = z3.Int('ss_k')
+            sub = self.sub(env={}, pure=True)
+            term = num_real(sub.to_val(sub.call_spec(sf, [sq[k]], {})))
+            self.st.axioms.append(z3.ForAll([sq], F(sq, 0) == 0, patterns=[F(sq, 0)]))
+            self.st.axioms.append(z3.ForAll([sq, k], z3.Implies(k >= 0, F(sq, k + 1) == F(sq, k) + term),
+                                            patterns=[F(sq, k + 1)]))
+        sv = self.ev(node.args[1])
+        if not isinstance(sv, SeqV):
+            raise Unsupported('seq_sum needs a sequence')
+        return Val.f(F(sv.seq, num_int(self.to_val(self.ev(node.args[2])))))
 
     def spec_lower(self, node):
         v = self.to_val(self.ev(node.args[0]))
